@@ -94,6 +94,10 @@ pub struct RecCollector {
     spans: Mutex<HashMap<u64, SpanData>>,
     stacks: Mutex<HashMap<u64, Vec<u64>>>, // harness thread -> entered span ids
     pub log_filtering: bool,              // also log register_callsite / enabled calls
+    /// `clone_span` hands out a fresh id for the new handle (legal per the `Collect` docs); all ids
+    /// of one span share its reference count
+    pub alias_on_clone: bool,
+    aliases: Mutex<HashMap<u64, u64>>, // handle id -> root span id
 }
 
 impl RecCollector {
@@ -110,9 +114,14 @@ impl RecCollector {
                 spans: Mutex::new(HashMap::new()),
                 stacks: Mutex::new(HashMap::new()),
                 log_filtering: false,
+                alias_on_clone: false,
+                aliases: Mutex::new(HashMap::new()),
             },
             flag,
         )
+    }
+    fn root(&self, id: u64) -> u64 {
+        self.aliases.lock().unwrap().get(&id).copied().unwrap_or(id)
     }
     fn push(&self, v: Value) {
         self.log.lock().unwrap_or_else(|e| e.into_inner()).push(v);
@@ -193,9 +202,10 @@ impl Collect for RecCollector {
         self.push(json!({"col": self.id, "call": "exit", "id": id.into_u64(), "th": vt()}));
     }
     fn clone_span(&self, id: &span::Id) -> span::Id {
+        let root = self.root(id.into_u64());
         let known = {
             let mut sp = self.spans.lock().unwrap();
-            match sp.get_mut(&id.into_u64()) {
+            match sp.get_mut(&root) {
                 Some(d) => {
                     d.refs += 1;
                     true
@@ -203,17 +213,25 @@ impl Collect for RecCollector {
                 None => false,
             }
         };
-        self.push(json!({"col": self.id, "call": "clone_span", "id": id.into_u64(), "known": known, "th": vt()}));
-        id.clone()
+        let ret = if self.alias_on_clone && known {
+            let n = self.next.fetch_add(1, Ordering::SeqCst);
+            self.aliases.lock().unwrap().insert(n, root);
+            n
+        } else {
+            id.into_u64()
+        };
+        self.push(json!({"col": self.id, "call": "clone_span", "id": id.into_u64(), "ret": ret, "known": known, "th": vt()}));
+        span::Id::from_u64(ret)
     }
     fn try_close(&self, id: span::Id) -> bool {
+        let root = self.root(id.into_u64());
         let (known, closed) = {
             let mut sp = self.spans.lock().unwrap();
-            match sp.get_mut(&id.into_u64()) {
+            match sp.get_mut(&root) {
                 Some(d) => {
                     d.refs -= 1;
                     if d.refs == 0 {
-                        sp.remove(&id.into_u64());
+                        sp.remove(&root);
                         (true, true)
                     } else {
                         (true, false)
@@ -228,7 +246,7 @@ impl Collect for RecCollector {
     fn current_span(&self) -> span::Current {
         let top = self.stacks.lock().unwrap().get(&vt()).and_then(|s| s.last().copied());
         match top {
-            Some(id) => match self.spans.lock().unwrap().get(&id) {
+            Some(id) => match self.spans.lock().unwrap().get(&self.root(id)) {
                 Some(d) => span::Current::new(span::Id::from_u64(id), d.meta),
                 None => span::Current::none(),
             },
